@@ -380,6 +380,20 @@ func init() {
 			}
 		}
 		c.Count("retried_jobs_checked_for_distinct_attempt_identity", int64(retried))
+		if len(res.fc.Rules) > 0 && res.fc.Rules[0].Fail == "straggler" {
+			// a notification of a superseded attempt must not be taken for the
+			// current one: nothing may consume the job's outputs before the
+			// attempt that replaced it has ended, and every argument must be right
+			if b, err := os.ReadFile(filepath.Join(res.obs.Case.PsDir, "_log")); err == nil {
+				c.Count("stale_notifications_of_superseded_attempts_seen_and_dropped_by_mrp", int64(strings.Count(string(b), "There appears to be more than one instance of")))
+			}
+			for _, f := range res.report.Findings {
+				if (f.Prop == "C01" || f.Prop == "C02") && !strings.Contains(f.Sig, "indep") && !strings.Contains(f.Sig, "fed-by-other-instance-of-own-map-call") {
+					c.Violate("C11:e2e:stale-attempt-notification:"+f.Prop+":"+f.Sig, "with a leftover of the first attempt reporting completion during the retry: "+f.What,
+						map[string]interface{}{"program_seed": res.fc.Seed, "mro": res.prog.Print(), "rules": res.fc.Rules})
+				}
+			}
+		}
 		if len(res.fc.Rules) > 0 {
 			return // runs with injected transient failures: only the identity check applies
 		}
@@ -432,6 +446,24 @@ func init() {
 				seed := c.Seed*1000003 + 2500000 + int64(i)
 				cases = append(cases, &flowCase{Index: i, Seed: seed, Cfg: cfg, Vdr: []string{"disable", "rolling"}[i%2], Timeout: 60e9,
 					Tweak: func(s *pgen.Spec) { s.LenChoices = []int{0, 1, 2, 9, 10, 11} }})
+				if i%4 == 0 {
+					// lost-but-alive jobs: the first attempt of every job of one
+					// phase dies and a leftover of it reports completion under the
+					// superseded attempt's journal name while the retry is running
+					fc := cases[len(cases)-1]
+					ph := []string{"join", "main", "split", ""}[(i/4)%4] // "": every phase
+					fc.Cfg.PSplitStage = 70
+					if (i/4)%2 == 0 {
+						// skeleton 4: a splitting stage mapped over a run-time
+						// collection, fed by another mapped stage
+						fc.Template = 5
+						fc.Cfg.ForceSplit = true
+					}
+					fc.AutoRetry = 12
+					fc.Timeout = 150e9
+					fc.Rules = []pgen.Rule{{Phase: ph, Attempt: 1, Fail: "straggler", DelayAfterMs: 3500}, {Phase: ph, Attempt: 2, DelayBeforeMs: 5000}}
+					fc.Tweak = func(s *pgen.Spec) { s.LenChoices = []int{1, 2}; s.ChunkChoices = []int{1, 2} }
+				}
 				if i%4 == 2 {
 					// every main job dies once from a signal and is retried in-process
 					fc := cases[len(cases)-1]
